@@ -10,7 +10,7 @@ package timer
 //@   prop C13 C07
 //@   requires f != nil
 //@   ensures [fires-at-most-once] ncalls(f) <= old(ncalls(f)) + 1
-//@   ensures [never-early] forall p int :: old(evlen) <= p && p < evlen && isCall(ev(p)) ==>
+//@   ensures [never-early] forall p int :: old(evlen) <= p && p < evlen && isFnCall(ev(p)) ==>
 //@             p > old(evlen) && isRecv(ev(p - 1)) && intval(evval(ev(p - 1))) >= t
 //@   ensures [fired-or-cancelled] ncalls(f) == old(ncalls(f)) + 1 ||
 //@             (ncalls(f) == old(ncalls(f)) && isRecv(ev(evlen - 1)) && evch(ev(evlen - 1)) == ctxdone(ctx))
@@ -29,7 +29,7 @@ package timer
 //@             (exists p int :: old(evlen) <= p && p < evlen && isRecv(ev(p)) && evch(ev(p)) == ctxdone(ctx))
 //@   ensures [final-at-most-once] ncalls(final) <= old(ncalls(final)) + 1
 //@   ensures [no-firing-after-final] forall p int, q int :: old(evlen) <= p && p < q && q < evlen &&
-//@             isCall(ev(p)) && evch(ev(p)) == fncode(final) ==> !(isCall(ev(q)) && evch(ev(q)) == fncode(f))
+//@             isFnCall(ev(p)) && evch(ev(p)) == fncode(final) ==> !(isFnCall(ev(q)) && evch(ev(q)) == fncode(f))
 //@   loop 1 for
 //@     invariant repetitions >= -1 && (interval.Repititions >= 0 ==> repetitions >= 0)
 //@     invariant interval.Repititions >= 0 ==> ncalls(f) - old(ncalls(f)) + repetitions <= interval.Repititions
@@ -38,8 +38,8 @@ package timer
 //@     invariant ncalls(final) == old(ncalls(final)) && ncalls(f) >= old(ncalls(f))
 //@     invariant interval.Interval.End == nil ==> endTimer == nil
 //@     invariant forall p int :: old(evlen) <= p && p < evlen ==> !(isRecv(ev(p)) && evch(ev(p)) == ctxdone(ctx))
-//@     invariant forall p int :: old(evlen) <= p && p < evlen ==> !(isCall(ev(p)) && evch(ev(p)) == fncode(final))
-//@     iter ensures [one-interval-apart] forall p int :: old(evlen) <= p && p < evlen && isCall(ev(p)) && evch(ev(p)) == fncode(f) ==>
+//@     invariant forall p int :: old(evlen) <= p && p < evlen ==> !(isFnCall(ev(p)) && evch(ev(p)) == fncode(final))
+//@     iter ensures [one-interval-apart] forall p int :: old(evlen) <= p && p < evlen && isFnCall(ev(p)) && evch(ev(p)) == fncode(f) ==>
 //@             p > old(evlen) && isRecv(ev(p - 1)) && intval(evval(ev(p - 1))) >= old(t) + interval.Interval.Duration.Duration
 //@     iter ensures [t-is-the-delivered-time] forall p int :: old(evlen) <= p && p < evlen && isRecv(ev(p)) && evch(ev(p)) == timer ==>
 //@             t == intval(evval(ev(p)))
